@@ -120,3 +120,19 @@ def run(rec):
     items += [("layout", "AB_rev", ("grid", 2, 1, 1, 1), "euler"), ("layout", "ABC_bi", ("graph", "triangle"), "euler"),
               ("layout", "AB_rev", ("grid", 2, 1, 1, 0), "tauleap"), ("layout", "AB_rev", ("graph", "pair"), "gillespie")]
     rec.parallel(_work, items)
+    # Python side: what "default: the last requested time" means when the script is edited after its construction
+    from .. import pysym
+    text = '''from harness.c09lib import *
+
+
+def h_default_tmax_follows(edit: int, f_space: int, opt: int) -> bool:
+    """
+    pre: 0 <= edit <= 3 and 0 <= f_space <= 1 and 0 <= opt <= 2
+    post: _
+    """
+    return default_tmax_follows(edit, f_space, opt)
+'''
+    mod = pysym.write_module("hgen_C09", text)
+    pysym.run_auto(rec, mod, [{"fn": "h_default_tmax_follows", "what": "t_max left at its default is the last requested time of the script AS IT IS when the engine is set up (sample times replaced by a longer / shorter list or edited in place); "
+                               "an explicit t_max stays; dictionary round trip and copy agree (grid/graph x 3 engine kinds)", "sig": "c09-default-tmax", "structure": "script",
+                               "viol": "the default t_max is a stale copy of an earlier last sample time"}])
